@@ -457,6 +457,27 @@ func (f *fctx) nilable(e ast.Expr) (string, bool) {
 	return "", false
 }
 
+// isNilNocopy: e is a nil thrift.NocopyWriter: the literal nil, `thrift.NocopyWriter(nil)`, or a local declared
+// `var w thrift.NocopyWriter` (zero value) that is never assigned
+func (f *fctx) isNilNocopy(e ast.Expr) bool {
+	e = stripParens(e)
+	info := f.pk.TypesInfo
+	if info.Types[e].IsNil() {
+		return true
+	}
+	if call, ok := e.(*ast.CallExpr); ok && len(call.Args) == 1 {
+		if tv, ok := info.Types[call.Fun]; ok && tv.IsType() && isNocopy(tv.Type) {
+			return f.isNilNocopy(call.Args[0])
+		}
+	}
+	if id, ok := e.(*ast.Ident); ok {
+		if o := info.Uses[id]; o != nil && f.nilLocals[o] {
+			return true
+		}
+	}
+	return false
+}
+
 func (f *fctx) aliasOf(o types.Object) *alias {
 	for i := len(f.aliases) - 1; i >= 0; i-- {
 		if f.aliases[i].obj == o {
@@ -547,6 +568,7 @@ type fctx struct {
 	ords    []ordParam
 	ordOf   map[ordKey]string
 	aliases []alias
+	nilLocals map[types.Object]bool // locals of type thrift.NocopyWriter that hold the nil interface (declared without a value, never assigned)
 	loopCache map[string]string // abstracted text of a loop function -> its name (the same source loop translated twice)
 	fi      *fnInfo
 	pk      *packages.Package
@@ -1900,6 +1922,33 @@ func (f *fctx) decl(b *blk, st *ast.DeclStmt) {
 			if o == nil {
 				continue
 			}
+			if isNocopy(o.Type()) && (len(vs.Values) <= i || f.isNilNocopy(vs.Values[i])) {
+				// `var w thrift.NocopyWriter`: the nil interface, as long as nothing is assigned to it
+				asg := false
+				ast.Inspect(f.fi.fd.Body, func(n ast.Node) bool {
+					if as, ok := n.(*ast.AssignStmt); ok {
+						for _, l := range as.Lhs {
+							if lid, ok := stripParens(l).(*ast.Ident); ok && (f.pk.TypesInfo.Uses[lid] == o || (f.pk.TypesInfo.Defs[lid] == o && as.Tok != token.DEFINE)) {
+								asg = true
+							}
+						}
+					}
+					if u, ok := n.(*ast.UnaryExpr); ok && u.Op == token.AND {
+						if lid, ok := stripParens(u.X).(*ast.Ident); ok && f.pk.TypesInfo.Uses[lid] == o {
+							asg = true
+						}
+					}
+					return true
+				})
+				if asg {
+					f.fail(st, "a thrift.NocopyWriter local that is assigned")
+				}
+				if f.nilLocals == nil {
+					f.nilLocals = map[types.Object]bool{}
+				}
+				f.nilLocals[o] = true
+				continue
+			}
 			lt := leanType(o.Type())
 			if lt == tBad {
 				f.fail(st, "variable of type %s not supported", o.Type())
@@ -2723,6 +2772,12 @@ func (f *fctx) binary(b *blk, x *ast.BinaryExpr, tv types.TypeAndValue) string {
 				}
 				return "(Option.isSome " + nm + ")"
 			}
+			if (info.Types[x.Y].IsNil() && f.isNilNocopy(x.X)) || (info.Types[x.X].IsNil() && f.isNilNocopy(x.Y)) {
+				if x.Op == token.EQL {
+					return "true"
+				}
+				return "false"
+			}
 		}
 		lt := info.TypeOf(x.X)
 		rt := info.TypeOf(x.Y)
@@ -3076,7 +3131,7 @@ func (f *fctx) callMulti(b *blk, call *ast.CallExpr, n int) []string {
 		// the behaviour of the NocopyWriter argument: the caller's own `J`, or the trivial instance next to a literal nil
 		for i, a := range call.Args {
 			if i < sig.Params().Len() && sig.Params().At(i) == ci.nocopy {
-				if info.Types[a].IsNil() {
+				if f.isNilNocopy(a) {
 					args = append(args, "nilNocopy")
 				} else if _, ok := f.nilable(a); ok && f.fi.nocopy != nil {
 					args = append(args, "J")
@@ -3145,7 +3200,7 @@ func (f *fctx) callMulti(b *blk, call *ast.CallExpr, n int) []string {
 			continue
 		}
 		if i < sig.Params().Len() && ci.nocopy != nil && sig.Params().At(i) == ci.nocopy {
-			if info.Types[a].IsNil() {
+			if f.isNilNocopy(a) {
 				args = append(args, "(none : Option Unit)")
 				mutObjs = append(mutObjs, nil) // the state that comes back is dropped
 			} else {
